@@ -479,7 +479,7 @@ func writeEvidence(path string, cf *CheckFile, tier string, seed int64, reports 
 		}
 		runs = append(runs, map[string]interface{}{
 			"name": r.Name, "harness": r.Cfg.Harness, "pkg": r.Cfg.Pkg, "bounds": r.Bounds, "params": r.Cfg.Params,
-			"hash_mode": r.Cfg.HashMode, "preemption_bound": r.Cfg.Preemptions, "solver": solverDescription(r.Cfg.Solver),
+			"hash_mode": r.Cfg.HashMode, "preemption_bound": r.Cfg.Preemptions, "delay_bound": r.Cfg.DelayBound, "solver": solverDescription(r.Cfg.Solver),
 			"paths": a.Paths, "paths_by_status": a.ByStatus, "symbolic_decisions": a.Decisions,
 			"assertions_checked": a.Asserts, "assertions_discharged_unsat": a.Discharged,
 			"solver_queries": a.Queries, "solver_time_s": a.SolverTime.Seconds(), "solver_unknown": a.Unknowns,
